@@ -227,6 +227,9 @@ func init() {
 			rep.count("scenario:writer-restart-with-a-partly-flushed-unfinished-event", 1)
 		}
 		for i := 0; i < n; i++ {
+			if rep.outOfTime() {
+				break
+			}
 			hseed := r.Int63()
 			hr := rand.New(rand.NewSource(hseed))
 			cfg := cfgs[hr.Intn(len(cfgs))]
